@@ -32,9 +32,10 @@ type Faulty struct {
 	failCas  map[int]bool
 	events   []Event
 
-	CasDelay time.Duration // every CasByVersion takes this long to reach the storage (a slow, but answering, storage)
-	CasErr   error         // what an injected CasByVersion failure returns (nil: ErrInjected)
-	CreateErr error        // what an injected Create failure returns (nil: ErrInjected)
+	CasDelay      time.Duration // every CasByVersion takes this long to reach the storage (a slow, but answering, storage)
+	CasReplyDelay time.Duration // the reply of every applied CasByVersion takes this long to reach the caller
+	CasErr        error         // what an injected CasByVersion failure returns (nil: ErrInjected)
+	CreateErr     error         // what an injected Create failure returns (nil: ErrInjected)
 
 	holdArmed bool
 	holdAfter bool
@@ -230,6 +231,7 @@ func (f *Faulty) CasByVersion(ctx context.Context, r kvs.Record) (kvs.Record, er
 	fail := f.failCas[k] || f.killed
 	hold, after := f.holdArmed, f.holdAfter
 	held, resume := f.Held, f.Resume
+	delay, replyDelay := f.CasDelay, f.CasReplyDelay
 	if hold {
 		f.holdArmed = false
 	}
@@ -238,6 +240,9 @@ func (f *Faulty) CasByVersion(ctx context.Context, r kvs.Record) (kvs.Record, er
 		err := ErrInjected
 		if f.CasErr != nil && !f.dead() {
 			err = f.CasErr
+		}
+		if delay > 0 && !f.dead() {
+			f.pause(ctx, delay) // a request that gets lost on a slow storage: the caller learns it after the usual latency
 		}
 		f.log(Event{Op: "cas", Key: r.Key, Ver: r.Version, Err: err})
 		return kvs.Record{}, err
@@ -250,16 +255,53 @@ func (f *Faulty) CasByVersion(ctx context.Context, r kvs.Record) (kvs.Record, er
 		close(held)
 		<-resume
 	}
-	if f.CasDelay > 0 {
-		time.Sleep(f.CasDelay)
+	if delay > 0 && !f.pause(ctx, delay) {
+		// a storage that honours contexts: the caller's context ended while the request was on its way
+		f.log(Event{Op: "cas", Key: r.Key, Ver: r.Version, Err: ctx.Err()})
+		return kvs.Record{}, ctx.Err()
 	}
 	res, err := f.Inner.CasByVersion(ctx, r)
 	f.log(Event{Op: "cas", Key: r.Key, Ver: r.Version, Applied: true, Err: err})
+	if replyDelay > 0 && !f.pause(ctx, replyDelay) {
+		// applied, but the caller's context ended before the reply arrived
+		f.log(Event{Op: "cas-reply", Key: r.Key, Ver: r.Version, Applied: true, Err: ctx.Err()})
+		return kvs.Record{}, ctx.Err()
+	}
 	if hold && after {
 		close(held)
 		<-resume
 	}
 	return res, err
+}
+
+// SetCasDelay changes CasDelay while calls may be running.
+func (f *Faulty) SetCasDelay(d time.Duration) {
+	f.mu.Lock()
+	f.CasDelay = d
+	f.mu.Unlock()
+}
+
+// SetCasReplyDelay changes CasReplyDelay while calls may be running.
+func (f *Faulty) SetCasReplyDelay(d time.Duration) {
+	f.mu.Lock()
+	f.CasReplyDelay = d
+	f.mu.Unlock()
+}
+
+// pause lets d pass; with HonourCtx it ends early (false) when ctx is done first.
+func (f *Faulty) pause(ctx context.Context, d time.Duration) bool {
+	if !f.HonourCtx {
+		time.Sleep(d)
+		return true
+	}
+	t := time.NewTimer(d)
+	defer t.Stop()
+	select {
+	case <-t.C:
+		return true
+	case <-ctx.Done():
+		return false
+	}
 }
 
 func (f *Faulty) WaitForVersionChange(ctx context.Context, key, ver string) error {
